@@ -229,6 +229,15 @@ def run(ctx):
         rngw = ctx.rng('wild')
         wants_w = rngw.sample(wants_w, min(len(wants_w), 500))
     wp = [(g, w) for w in wants_w for g in gots_w]
+    # characters that merely LOOK like others or have a compatibility decomposition (superscripts, ordinal indicators, the micro
+    # sign, fractions, the no-break space, ligatures, full-width letters, the one-character ellipsis): different characters
+    # are different text, under every flag setting
+    looks = [('\xb2', '2'), ('\xb3', '3'), ('\xb9', '1'), ('\xaa', 'a'), ('\xba', 'o'), ('\xb5', '\u03bc'), ('\xbd', '1/2'), ('\xa0', ' '),
+             ('\ufb01', 'fi'), ('\uff41', 'a'), ('\u2026', '...'), ('\u2460', '1'), ('\xe9', 'e\u0301')]
+    for a, b in looks:
+        for frame in ('m%s', 'x = 25 m%s end', '%s', 'a %s b\nc', 'k%sk ...', 'a...%s'):
+            for x, y in ((a, b), (b, a), (a, a)):
+                wp.append((frame % x, frame % y))
     # wildcards next to whitespace other than blank / tab / newline (CRLF text, form feeds, no-break spaces ...): a wildcard absorbs
     # the whitespace around it, so the got may be SHORTER than the literal characters of the want
     for ws in ['\r', '\r\n', '\x0c', '\x0b', '\xa0', '\x85', '\x1c', '\u2028', '\u3000']:
